@@ -101,7 +101,7 @@ PROPS = {
                         'the cycle-breaking heuristics (breakCycle)', 'liveness: that a real cycle always stalls the loop; termination of the search (finite simple paths)'],
     },
     'C08': {
-        'units': ['extcmd', 'fileinfo', 'extcmd_run', 'extcmd_result', 'shelldeps_dispatch', 'nodetasks', 'archive'],
+        'units': ['extcmd', 'fileinfo', 'extcmd_run', 'extcmd_result', 'shelldeps_dispatch', 'nodetasks', 'archive', 'toolvalid'],
         'design_ref': 'DESIGN.md section 4, C08',
         'claim': 'kernel only: ExternalCommand::isResultValid declares a stored result valid only if every non-virtual output still matches what the '
                  'command produced (existence only for mutated outputs) and never for a non-successful stored result; FileInfo ==/!= and '
@@ -112,11 +112,11 @@ PROPS = {
                         'StatTask / ProducedDirectoryNodeTask, the start / inputsAvailable halves of TargetTask and CommandTask (closures)'],
     },
     'C10': {
-        'units': ['extcmd', 'subprocess', 'extcmd_run', 'extcmd_result', 'nodetasks'],
+        'units': ['extcmd', 'subprocess', 'extcmd_run', 'extcmd_result', 'nodetasks', 'toolvalid'],
         'design_ref': 'DESIGN.md section 4, C10',
         'claim': 'every stored command result that is not a success is invalid (retried next build); only a successful stored result counts as a prior '
                  'result (so a skipped / propagated-failure value can never short-cut execution); cleanUpExecutedProcess (POSIX) reports success only for '
-                 'a reaped process whose wait status word is 0, cancelled for SIGINT/SIGKILL, failed otherwise, exactly one processFinished and one completion; ExternalCommand::start re-initialises the per-build state (skip value, missing keys, hasPriorResult, canUpdateIfNewer) and requests every declared input once under its position; provideValue: a failed input or a disallowed missing input makes the command skip with a propagated failure and a later good input never clears that; execute: a skipping command reports its skip value and never runs, missing inputs count as a command failure, the run is replaced by a look at the outputs only with a successful prior result of THIS build, a failed / cancelled process yields a failed / cancelled command value; getResultForOutput: the outputs of a failed, cancelled or propagated-failure command are failed inputs, of a skipped one skipped; a produced node whose stored value was a failed or missing input is never valid, a node without a single producer fails the build with a failed input',
+                 'a reaped process whose wait status word is 0, cancelled for SIGINT/SIGKILL, failed otherwise, exactly one processFinished and one completion; ExternalCommand::start re-initialises the per-build state (skip value, missing keys, hasPriorResult, canUpdateIfNewer) and requests every declared input once under its position; provideValue: a failed input or a disallowed missing input makes the command skip with a propagated failure and a later good input never clears that; execute: a skipping command reports its skip value and never runs, missing inputs count as a command failure, the run is replaced by a look at the outputs only with a successful prior result of THIS build, a failed / cancelled process yields a failed / cancelled command value; getResultForOutput: the outputs of a failed, cancelled or propagated-failure command are failed inputs, of a skipped one skipped; a produced node whose stored value was a failed or missing input is never valid, a node without a single producer fails the build with a failed input; the built-in mkdir and symlink tools never treat a non-successful stored result as valid; a produced directory node requests and returns the tree signature only when its producer really produced it (an existing input) - a failed, skipped or missing producer result is passed on as it is',
         'not_decided': ['the directory creation and the dispatch to executeExternalCommand in execute', 'transitive non-execution across the graph and '
                         'parallel timing', 'the Windows branch of Subprocess.cpp (not compiled here)'],
     },
@@ -131,7 +131,7 @@ PROPS = {
                         'chained without delimiters (candidate finding F9, ExternalCommand::getSignature is not under contract)', 'the null-build claim end to end'],
     },
     'C11': {
-        'units': ['mkdeps', 'depinfo', 'shelldeps', 'shelldeps_dispatch', 'engine_loop', 'depids'],
+        'units': ['mkdeps', 'depinfo', 'shelldeps', 'shelldeps_dispatch', 'engine_loop', 'depids', 'clangdeps'],
         'design_ref': 'DESIGN.md section 4, C11',
         'claim': 'Makefile-deps lexer/parser: consumed/produced byte accounting of lexWord, every reported word is a '
                  'non-empty span of the buffer, rule start/end pairing also on error paths, isWordChar table; the shell command\'s depfile callbacks record '
@@ -139,7 +139,7 @@ PROPS = {
                  'directory and made absolute -- and report the same path to the delegate; dependency-info input records are recorded under their path, '
                  'missing/output records never; processDiscoveredDependencies: every deps file of the command (at most two named) is read - a relative path against the working directory, made absolute - '
                  'and handed with its own contents to the processor of the declared style, `makefile` with all rules honoured and only `makefile-ignoring-subsequent-outputs` stopping after the first rule; '
-                 'a missing style, an unreadable file or a file its processor rejects fails the command',
+                 'a missing style, an unreadable file or a file its processor rejects fails the command; the clang tool depfile callback records and reports the UNESCAPED word',
         'not_decided': ['that a later change to P re-executes the command (paper lemma L1)', 'the contents of the file system (a ghost answer per path)'],
     },
     'C12': {
@@ -164,13 +164,13 @@ PROPS = {
         'not_decided': ['the real stat/readlink/MD5 (assumed models)', 'the symlink readlink path content'],
     },
     'C14': {
-        'units': ['stale', 'prefix'],
+        'units': ['stale', 'prefix', 'rmtree'],
         'design_ref': 'DESIGN.md section 4, C14',
         'claim': 'StaleFileRemovalCommand::execute (proved, lists of at most 4 stale files / 3 roots as separate objects, loops closed by invariants): only elements of '
                  'filesToDelete are ever passed to remove(); the k-th stale file is removed iff no roots are configured or it is absolute and '
                  'pathIsPrefixedByPath(file, root) holds for some configured root; nothing is removed without a prior stale-file-removal result; the '
                  'result recorded is always built from the CURRENT expected-output list.  pathIsPrefixedByPath agrees with the component-wise prefix '
-                 'specification of the property statement (one trailing separator of the root ignored) -- BOUNDED: all pairs of strings of length <= 6',
+                 'specification of the property statement (one trailing separator of the root ignored) -- BOUNDED: all pairs of strings of length <= 6; _remove_all_r (the recursive walk behind remove): success for a directory means every entry the iterator yielded, whatever its name, was removed through a recursive call and then the directory itself, links are not followed, the first error is returned (induction on the depth: recursive calls are assumed to meet the same contract; at most 3 entries named)',
         'not_decided': ['std::set / std::set_difference themselves (computeFilesToDelete is proved to hand them the prior list and the current list as duplicate-free sorted sets, output into filesToDelete)', 'pathIsPrefixedByPath on strings longer than the bound',
                         'recursive directory removal (FileSystem::remove)'],
     },
